@@ -573,9 +573,9 @@ Proof.
     destruct Ht as [Hso Ht]. unfold same_old in Hso. apply existsb_exists in Hso.
     destruct Hso as (cl' & Hcl' & Hm). apply andb_true_iff in Hm. destruct Hm as [Hx Hy].
     apply mem_In in Hx. apply mem_In in Hy.
-    assert (cl' = cl) by (eapply NoDup_concat_unique; eauto using old_nodup). subst cl'.
+    assert (cl' = cl) by (exact (@NoDup_concat_unique old cl' cl x old_nodup Hcl' Hcl Hx Hi)). subst cl'.
     destruct (IH Hy) as [Hz Hc]. split; [exact Hz|].
-    eapply conn_trans; [apply conn_step; eauto|exact Hc].
+    apply conn_trans with (j := y); [apply conn_step; assumption|exact Hc].
 Qed.
 
 Lemma bridge_bw : forall cl i j, In cl old -> conn T cl i j -> conn Tpar (seq 0 n) i j.
@@ -628,8 +628,8 @@ Proof.
   pose proof (@split_classes Tpar Tpar_sym _ _ _ _ i j Hs HiN) as SC.
   split.
   - intros (c & Hc & Hic & Hjc). apply in_rev in Hc.
-    apply (bridge_fw Hcl Hi). apply SC. exists c. auto.
-  - intros Hconn. destruct (proj2 SC (bridge_bw Hcl Hconn)) as (c & Hc & Hic & Hjc).
+    apply (@bridge_fw cl i j Hcl Hi). apply SC. exists c. auto.
+  - intros Hconn. destruct (proj2 SC (@bridge_bw cl i j Hcl Hconn)) as (c & Hc & Hic & Hjc).
     exists c. split; [apply -> in_rev; exact Hc|auto].
 Qed.
 
@@ -652,7 +652,7 @@ Proof.
     intros y Hy.
     assert (Hc' : conn Tpar (seq 0 n) i y).
     { exact (proj2 (proj1 (proj2 (@split_spec Tpar Tpar_sym _ _ _ _ Hs)) c Hc) i y Hic Hy). }
-    exact (proj1 (bridge_fw Hcl Hicl Hc')).
+    exact (proj1 (@bridge_fw cl i y Hcl Hicl Hc')).
 Qed.
 
 Theorem cluster_par_fuel_enough : forall pick iso, cluster_par pick T iso old <> None.
@@ -674,13 +674,13 @@ Proof.
   intros pick iso news newp Hs Hp i j. destruct iso.
   - unfold cluster_seq in Hs. unfold cluster_par in Hp. inversion Hs. inversion Hp. tauto.
   - split; intros (c & Hc & Hic & Hjc).
-    + destruct (cluster_refines T false old Hold Hs c Hc) as (cl & Hcl & Hsub).
-      apply (proj2 (cluster_par_components _ Hp Hcl (Hsub _ Hic) (Hsub _ Hjc))).
-      apply (proj1 (cluster_components Tsym old_nodup Hs cl i j Hcl (Hsub _ Hic) (Hsub _ Hjc))).
+    + destruct (@cluster_refines T false old news Hold Hs c Hc) as (cl & Hcl & Hsub).
+      apply (proj2 (@cluster_par_components pick newp Hp cl i j Hcl (Hsub _ Hic) (Hsub _ Hjc))).
+      apply (proj1 (@cluster_components T old news Tsym old_nodup Hs cl i j Hcl (Hsub _ Hic) (Hsub _ Hjc))).
       exists c. auto.
-    + destruct (cluster_par_refines _ _ Hp c Hc) as (cl & Hcl & Hsub).
-      apply (proj2 (cluster_components Tsym old_nodup Hs cl i j Hcl (Hsub _ Hic) (Hsub _ Hjc))).
-      apply (proj1 (cluster_par_components _ Hp Hcl (Hsub _ Hic) (Hsub _ Hjc))).
+    + destruct (@cluster_par_refines pick false newp Hp c Hc) as (cl & Hcl & Hsub).
+      apply (proj2 (@cluster_components T old news Tsym old_nodup Hs cl i j Hcl (Hsub _ Hic) (Hsub _ Hjc))).
+      apply (proj1 (@cluster_par_components pick newp Hp cl i j Hcl (Hsub _ Hic) (Hsub _ Hjc))).
       exists c. auto.
 Qed.
 
